@@ -25,7 +25,7 @@ TRUSTED = [
     "translator translate/globals (our Go code) + golang.org/x/tools v0.29.0 go/packages, go/ssa: summary-based, field-insensitive "
     "write analysis over static calls (interface/dynamic calls and closures' free variables are not followed); curated list of "
     "state-changing stdlib APIs (math/rand top-level functions, runtime/debug.Set*, os.Setenv/Chdir, log.Set*, signal.*)",
-    "translate/globals/allow.txt: 5 variables whose write-through rows are artefacts of field-insensitivity (never hides a direct assignment)",
+    "translate/globals/allow.txt: 8 entries (5 write-through artefacts + os.Stdin/Stdout/Stderr as by-design shared streams) are artefacts of field-insensitivity (never hides a direct assignment)",
     "the link between Iso/Noninterf.v's shared component G and the generated table is informal: G = the package-level variables; "
     "a variable without writers outside init is constant after program start",
     "Go harness harness/cmd/gvh-iso; Python generator/diff lib/props/C20.py; Go race detector for data races (observed, not proved)",
@@ -65,7 +65,20 @@ VICTIM = [
     'local n = 0 for i = 1, 200 do for w in ("k1=v1;k2=v2;k3=v3"):gmatch("(%w+)=%w+") do n = n + #w end if ("abc" .. i):match("^%a+(%d+)$") then n = n + 1 end end emit("patloop", n)',
     'emit("g2", rawget(_G, "hacked"), rawget(_G, "x") == x, type(string.upper), type(tostring))',
 ]
-VICTIM += META_VICTIM
+# observers of the process's standard streams as seen through this runtime's io library (never the content of stdin:
+# the descriptor is shared by design and every runtime reads ahead)
+STD_VICTIM = [
+    'emit("std", io.stdout:write("o") == io.stdout, io.stderr:write("e") == io.stderr, io.write("w") == io.stdout, io.stdin:read(0))',
+    'emit("std2", select(2, io.stderr:write("x")), select(2, io.stdout:write("y")), io.type(io.stdout), io.type(io.stderr), io.type(io.stdin), select(2, io.stdin:read(0)), io.stdout:flush() == io.stdout)',
+]
+# programs that try to get rid of the standard files
+STD_ADVERSARY = [
+    'do local f <close> = io.stdout end do local g <close> = io.stderr end do local h <close> = io.stdin end',
+    'io.stdout = nil io.stderr = nil io.stdin = nil collectgarbage() collectgarbage()',
+    'pcall(io.close) pcall(io.close, io.stderr) pcall(function() io.stdout:close() end) pcall(function() io.output():close() end) pcall(function() io.input():close() end)',
+    'local so, se = io.stdout, io.stderr io.output(se) io.write("z") pcall(io.close) io.output(so) setmetatable({}, {__gc = function() pcall(io.close, se) end})',
+]
+VICTIM += META_VICTIM + STD_VICTIM
 RNG_VICTIM = [
     'math.randomseed(5)',
     'emit("rng", math.random(1, 1000))',
@@ -109,7 +122,7 @@ ADVERSARY = [
     'collectgarbage("collect") collectgarbage("step")',
     'for i = 1, 300 do local _ = ("zz" .. i):find("z+%d") _ = ("q,r,s"):gsub("[^,]+", "%0%0") end',
 ]
-ADVERSARY += META_ADVERSARY
+ADVERSARY += META_ADVERSARY + STD_ADVERSARY
 OPTIONS = ["cpu:1000000000", "cpu:3000", "regpool:20,regage:3", "cpu:60000,regpool:20", "mem:100000000", "cpu:1000000000,regpool:1,regage:1"]
 RNG_ADVERSARY = ['math.randomseed(7)', 'math.random()', 'math.random(10) math.random(10)', 'math.random(0, math.maxinteger) math.random(math.mininteger, math.maxinteger) math.random(0)']
 GC_ADVERSARY_STOP = 'collectgarbage("stop")'
@@ -135,6 +148,17 @@ def gen_pair(rng, kind):
     sched = "".join(rng.choice("AB") for _ in range(len(A) + len(B)))
     if kind == "gc":
         sched = "ABABAAB"
+    if kind == "close":
+        # one runtime is closed by its host (or dropped and garbage collected) mid-way while the other keeps running
+        A = [rng.choice(STD_ADVERSARY) if rng.chance(1, 2) else rng.choice(VICTIM) for _ in range(2 + rng.below(3))] + [STD_VICTIM[0]]
+        B = [STD_VICTIM[0]] + [rng.choice(VICTIM) for _ in range(1 + rng.below(3))] + [STD_VICTIM[1], STD_VICTIM[0]]
+        ka = 1 + rng.below(len(A))
+        act = rng.choice(["a", "a", "x"])
+        sched = "B" + "A" * ka + act + "B" * len(B)
+        if rng.chance(1, 4):
+            # the other way round: B ends, A goes on
+            A, B = B, A
+            sched = sched.replace("A", "_").replace("B", "A").replace("_", "B").replace("a", "b").replace("x", "y")
     if kind == "opt":
         # B (created without options, after A) is an observer that looks at its own limits and flags
         B = [LIM_SNIPPET] + [rng.choice(VICTIM) for _ in range(nb)] + [LIM_SNIPPET]
@@ -225,6 +249,13 @@ def run(tier, seed):
     ck.cov["variables_with_writers_outside_init"] = {r["var"]: {"direct": r["direct"], "indirect": r["indirect"][:6],
                                                                "allowed": bool(r.get("allowed")), "known": bool(r.get("known"))} for r in written}
     ck.cov["allow_unused"] = diag.get("allow_unused") or []
+    allowed_closers = set()
+    for ln in open(os.path.join(vlib.VERIF, "translate", "globals", "close_callers.txt")):
+        ln = ln.strip()
+        if ln and not ln.startswith("#"):
+            allowed_closers.add(ln.split(" # ")[0].strip())
+    new_closers = [c for c in (diag.get("os_file_close_callers") or []) if c not in allowed_closers]
+    ck.cov["os_file_close_callers"] = diag.get("os_file_close_callers")
     ck.cov["packages_loaded"] = diag.get("packages")
     ck.cov["variables_in_package_scopes"] = diag.get("vars_in_scopes")
     f_obl = pool.submit(prove, ck, tier)
@@ -248,7 +279,7 @@ def run(tier, seed):
                 pairs.append(("corpus", c["A"], c["B"], c["schedule"], c.get("opts")))
     ck.cov["corpus_pairs"] = len(pairs)
     for i in range(npairs):
-        kind = "rng" if i % 10 == 3 else ("gc" if i % 50 == 7 else ("opt" if i % 6 == 5 else "plain"))
+        kind = "rng" if i % 10 == 3 else ("gc" if i % 50 == 7 else ("opt" if i % 6 == 5 else ("close" if i % 6 == 2 else "plain")))
         A, B, sched = gen_pair(ck.rng, kind)
         pairs.append((kind, A, B, sched, OPTIONS[(i // 6) % len(OPTIONS)] if kind == "opt" else None))
     lines = ["p%d %s %s %s%s" % (i, "\n--\n".join(A).encode().hex(), "\n--\n".join(B).encode().hex(), sched, " opts=" + o if o else "")
@@ -333,7 +364,7 @@ def run(tier, seed):
     if opt_idx:
         for j in range(0, len(opt_idx), 300):
             part = opt_idx[j:j + 300]
-            o = vlib.run_lines_resilient(gvh, ["noopts"], [lines[i] for i in part], per_case_timeout=60, env={"GOMAXPROCS": "4"})
+            o = vlib.run_lines_resilient(gvh, ["noopts"], [lines[i] for i in part], per_case_timeout=60, env={"GOMAXPROCS": "4", "GVH_SCRATCH": os.path.join(ck.work, "std")})
             for i, l in zip(part, o):
                 m = re.search(r" SB:([0-9a-f]*)", l)
                 if m:
@@ -351,7 +382,7 @@ def run(tier, seed):
                 o_all, se_all, rc_all = [], "", 0
                 for j in range(0, len(sub), 150):
                     rc, o, se = vlib.run_lines(gvh_race, [], [lines[i] for i in sub[j:j + 150]], 3000,
-                                               {"GOMAXPROCS": gmp, "GORACE": "halt_on_error=0"})
+                                               {"GOMAXPROCS": gmp, "GORACE": "halt_on_error=0", "GVH_SCRATCH": os.path.join(ck.work, "std")})
                     o_all += o
                     se_all += se
                     rc_all = rc_all or rc
@@ -364,7 +395,7 @@ def run(tier, seed):
     step = 300
     slices = [lines[i:i + step] for i in range(0, len(lines), step)]
     with ThreadPoolExecutor(max_workers=3) as sp:
-        parts = list(sp.map(lambda sl: vlib.run_lines_resilient(gvh, [], sl, per_case_timeout=60, env={"GOMAXPROCS": "4"}), slices))
+        parts = list(sp.map(lambda sl: vlib.run_lines_resilient(gvh, [], sl, per_case_timeout=60, env={"GOMAXPROCS": "4", "GVH_SCRATCH": os.path.join(ck.work, "std")}), slices))
     outs = [l for part in parts for l in part]
     evaluate(outs, "plain/GOMAXPROCS=4", alli)
     ck.log("plain build: %d pairs done" % len(outs))
@@ -420,6 +451,10 @@ def run(tier, seed):
                       ", ".join((r["direct"] + r["indirect"])[:4]), (": " + hows[0][:160]) if hows else ""),
                      {"kind": "generated-table-row", "row": r, "theorem": "C20_no_shared_writers_partial",
                       "coq": str(ck.cov.get("obligation_failure", ""))[-600:]}, no_input=(nviol == 0))
+    for c in new_closers:
+        ck.violation("%s now calls (*os.File).Close: the process-wide standard streams wrapped by every runtime's io.stdin/stdout/stderr "
+                     "may be closed for all runtimes (not in translate/globals/close_callers.txt)" % c,
+                     {"kind": "generated-table-row", "function": c, "allowed": sorted(allowed_closers)}, no_input=(nviol == 0))
     if not ok_obl and not bad_rows:
         ck.violation("proof obligations of C20 no longer check: " + str(ck.cov.get("obligation_failure", ""))[-300:],
                      {"kind": "proof", "theorem_file": PROP, "detail": ck.cov.get("obligation_failure")}, no_input=(nviol == 0))
@@ -447,7 +482,7 @@ def replay(path, seed):
     line = "r %s %s %s" % ("\n--\n".join(r["A"]).encode().hex(), "\n--\n".join(r["B"]).encode().hex(), r["schedule"])
     if r.get("opts"):
         line += " opts=" + r["opts"]
-    rc, out, se = vlib.run_lines(gvh, [], [line], env={"GOMAXPROCS": "4"})
+    rc, out, se = vlib.run_lines(gvh, [], [line], env={"GOMAXPROCS": "4", "GVH_SCRATCH": os.path.join(ck.work, "std")})
     for x in (out[0].split(" ")[1:] if out else []):
         print(x[:2], bytes.fromhex(x[3:]).decode("utf-8", "replace"))
     print(se[-2000:])
